@@ -4,6 +4,7 @@ import (
 	"context"
 	"errors"
 	"fmt"
+	"os"
 	"sort"
 	"strconv"
 	"strings"
@@ -53,6 +54,7 @@ type RouteProfile struct {
 	BadMetadata bool // C20 in routing mode: hostile stream-open metadata next to the regular streams
 	Multi       bool // two or three proxy instances sharing a memberlist cluster; each cluster shard connects to one of them, tasks and acks for shards owned elsewhere travel over intra-proxy streams
 	Crash       bool // multi-instance: an instance may crash (all its connections break, no leave broadcast; the others learn from the failure detector); its shards reconnect to the remaining instances
+	Restart     bool // a crashed instance may be started again under its name (a new process: nothing carried over)
 	BiasFaults  bool // place stream faults preferably where in-flight state exists (tasks delivered to a live target stream and not yet confirmed)
 }
 
@@ -179,7 +181,9 @@ type rInst struct {
 	observerA  *proxy.ReplicationStreamObserver
 	observerB  *proxy.ReplicationStreamObserver
 	startOK    bool
-	dead       bool // crashed: isolated from everything, ignored by the oracles from then on
+	gen        int    // 0, or the number of the restart that created this generation
+	startTask  string // name of the task that runs Start (the root of the generation's goroutines)
+	dead       bool   // crashed: isolated from everything, ignored by the oracles from then on
 }
 
 // RouteWorld implements simrt.World.
@@ -196,9 +200,12 @@ type RouteWorld struct {
 	observerA   *proxy.ReplicationStreamObserver
 	observerB   *proxy.ReplicationStreamObserver
 	insts       []*rInst
+	scc         config.ShardCountConfig
+	addrs       map[string]string
 	mlnet       *fakeml.Network
 	lastPP      map[string]time.Duration
-	pendingDead [][2]string // (at, dead): failure-detector verdicts not yet delivered
+	pendingDead [][2]string     // (at, dead): failure-detector verdicts not yet delivered
+	deadStarts  map[string]bool // start tasks of crashed generations: whatever descends from them is a zombie without a network
 
 	shards [3][]*shardModel // [cluster][shard-1]
 	phase  int              // 0 chaos, 1 tail, 2 close
@@ -345,7 +352,6 @@ func NewRouteWorld(s *simrt.Sim, prof RouteProfile) *RouteWorld {
 	})
 	w.lifetime, w.cancelAll = context.WithCancel(context.Background())
 	scc := config.ShardCountConfig{Mode: config.ShardCountRouting, LocalShardCount: int32(w.cfg.NA), RemoteShardCount: int32(w.cfg.NB)}
-	loggers := noopLoggers{}
 	addrs := map[string]string{}
 	for i := 0; i < w.cfg.NInst; i++ {
 		addrs[fmt.Sprintf("n%d", i+1)] = fmt.Sprintf("proxy-n%d:7000", i+1)
@@ -354,56 +360,23 @@ func NewRouteWorld(s *simrt.Sim, prof RouteProfile) *RouteWorld {
 		w.lastPP = map[string]time.Duration{}
 		w.mlnet = fakeml.NewNetwork()
 		w.mlnet.Spawn = func(name string, f func()) { s.Spawn(name, f) }
+		if os.Getenv("VSIM_PROXYLOG") != "" {
+			w.mlnet.Logf = func(format string, args ...any) { s.Log(format, args...) }
+		}
+		w.mlnet.DeadProcess = func() bool {
+			for _, t := range simrt.CurrentLineage() {
+				if w.deadStarts[t] {
+					return true
+				}
+			}
+			return false
+		}
 		fakeml.Use(w.mlnet)
 		seam.Reset()
 	}
+	w.scc, w.addrs = scc, addrs
 	for i := 0; i < w.cfg.NInst; i++ {
-		in := &rInst{name: fmt.Sprintf("n%d", i+1)}
-		in.addr = addrs[in.name]
-		toA := &adminClient{name: "toA", open: func(ctx context.Context) (adminservice.AdminService_StreamWorkflowReplicationMessagesClient, error) {
-			return w.openSource(in, clusterA, ctx)
-		}}
-		toB := &adminClient{name: "toB", open: func(ctx context.Context) (adminservice.AdminService_StreamWorkflowReplicationMessagesClient, error) {
-			return w.openSource(in, clusterB, ctx)
-		}}
-		in.lifetime, in.cancel = w.lifetime, w.cancelAll
-		var mc *config.MemberlistConfig
-		if prof.Multi {
-			mc = &config.MemberlistConfig{Enabled: true, NodeName: in.name, BindAddr: fmt.Sprintf("10.0.0.%d", i+1), BindPort: 7946, ProxyAddresses: addrs}
-			if prof.Crash {
-				// every instance is configured with all the others (a DNS name that resolves to the
-				// whole deployment): a crashed seed must not keep the survivors apart
-				for j := 0; j < w.cfg.NInst; j++ {
-					if j != i {
-						mc.JoinAddrs = append(mc.JoinAddrs, fmt.Sprintf("10.0.0.%d:7946", j+1))
-					}
-				}
-			} else if i > 0 {
-				mc.JoinAddrs = []string{"10.0.0.1:7946"}
-			}
-		}
-		in.sm = proxy.NewShardManager(mc, scc, encryption.TLSConfig{}, loggers)
-		var smForServers proxy.ShardManager = recSM{ShardManager: in.sm, w: w, inst: in.name}
-		in.observerA = proxy.NewReplicationStreamObserver(noopLoggers{}.Get(""))
-		in.observerB = proxy.NewReplicationStreamObserver(noopLoggers{}.Get(""))
-		// outbound server: serves the local cluster A; adminClient -> B, reverse -> A
-		in.outbound = proxy.NewAdminServiceProxyServer("outboundAdminService", toB, toA, proxy.AdminServiceOverrides{},
-			[]string{"outbound"}, in.observerA.ReportStreamValue, scc, proxy.LCMParameters{},
-			proxy.RoutingParameters{OverrideShardCount: scc.LocalShardCount, RoutingLocalShardCount: scc.RemoteShardCount, DirectionLabel: "outbound"},
-			loggers, smForServers, w.lifetime)
-		// inbound server: serves the remote cluster B; adminClient -> A, reverse -> B
-		in.inbound = proxy.NewAdminServiceProxyServer("inboundAdminService", toA, toB, proxy.AdminServiceOverrides{},
-			[]string{"inbound"}, in.observerB.ReportStreamValue, scc, proxy.LCMParameters{},
-			proxy.RoutingParameters{OverrideShardCount: scc.RemoteShardCount, RoutingLocalShardCount: scc.LocalShardCount, DirectionLabel: "inbound"},
-			loggers, smForServers, w.lifetime)
-		w.insts = append(w.insts, in)
-		if prof.Multi {
-			in := in
-			s.Spawn("start:"+in.name, func() { _ = in.sm.Start(in.lifetime); in.startOK = true })
-		} else {
-			_ = in.sm.Start(w.lifetime)
-			in.startOK = true
-		}
+		w.insts = append(w.insts, w.newInstance(i, 0))
 	}
 	w.sm, w.outbound, w.inbound = w.insts[0].sm, w.insts[0].outbound, w.insts[0].inbound
 	w.observerA, w.observerB = w.insts[0].observerA, w.insts[0].observerB
@@ -422,6 +395,11 @@ func NewRouteWorld(s *simrt.Sim, prof RouteProfile) *RouteWorld {
 				}
 				w.nextSt++
 				st := simio.NewStream(fmt.Sprintf("intra%d->%s", w.nextSt, peer.name), w.nextSt, ctx, 0)
+				for _, t := range simrt.CurrentLineage() {
+					if w.deadStarts[t] {
+						return nil, status.Error(codes.Unavailable, "network unreachable")
+					}
+				}
 				omd, _ := metadata.FromOutgoingContext(ctx)
 				opener := ""
 				if v := omd.Get("x-s2s-origin-proxy-id"); len(v) > 0 {
@@ -468,6 +446,85 @@ func NewRouteWorld(s *simrt.Sim, prof RouteProfile) *RouteWorld {
 		}
 	}
 	return w
+}
+
+// newInstance builds proxy instance number i (generation gen: 0 at the beginning, 1.. for a
+// restart after a crash, with the same name and addresses but nothing carried over - the
+// proxy keeps no durable state) and starts it.
+func (w *RouteWorld) newInstance(i, gen int) *rInst {
+	s, prof, scc, addrs := w.s, w.prof, w.scc, w.addrs
+	loggers := noopLoggers{}
+	in := &rInst{name: fmt.Sprintf("n%d", i+1), gen: gen}
+	in.startTask = "start:" + in.name
+	if gen > 0 {
+		in.startTask = fmt.Sprintf("start:%s.r%d", in.name, gen)
+	}
+	in.addr = addrs[in.name]
+	toA := &adminClient{name: "toA", open: func(ctx context.Context) (adminservice.AdminService_StreamWorkflowReplicationMessagesClient, error) {
+		return w.openSource(in, clusterA, ctx)
+	}}
+	toB := &adminClient{name: "toB", open: func(ctx context.Context) (adminservice.AdminService_StreamWorkflowReplicationMessagesClient, error) {
+		return w.openSource(in, clusterB, ctx)
+	}}
+	in.lifetime, in.cancel = w.lifetime, w.cancelAll
+	var mc *config.MemberlistConfig
+	if prof.Multi {
+		mc = &config.MemberlistConfig{Enabled: true, NodeName: in.name, BindAddr: fmt.Sprintf("10.0.0.%d", i+1), BindPort: 7946, ProxyAddresses: addrs}
+		if prof.Crash {
+			// every instance is configured with all the others (a DNS name that resolves to the
+			// whole deployment): a crashed seed must not keep the survivors apart
+			for j := 0; j < w.cfg.NInst; j++ {
+				if j != i {
+					mc.JoinAddrs = append(mc.JoinAddrs, fmt.Sprintf("10.0.0.%d:7946", j+1))
+				}
+			}
+		} else if i > 0 {
+			mc.JoinAddrs = []string{"10.0.0.1:7946"}
+		}
+	}
+	in.sm = proxy.NewShardManager(mc, scc, encryption.TLSConfig{}, loggers)
+	var smForServers proxy.ShardManager = recSM{ShardManager: in.sm, w: w, inst: in.name}
+	in.observerA = proxy.NewReplicationStreamObserver(noopLoggers{}.Get(""))
+	in.observerB = proxy.NewReplicationStreamObserver(noopLoggers{}.Get(""))
+	// outbound server: serves the local cluster A; adminClient -> B, reverse -> A
+	in.outbound = proxy.NewAdminServiceProxyServer("outboundAdminService", toB, toA, proxy.AdminServiceOverrides{},
+		[]string{"outbound"}, in.observerA.ReportStreamValue, scc, proxy.LCMParameters{},
+		proxy.RoutingParameters{OverrideShardCount: scc.LocalShardCount, RoutingLocalShardCount: scc.RemoteShardCount, DirectionLabel: "outbound"},
+		loggers, smForServers, w.lifetime)
+	// inbound server: serves the remote cluster B; adminClient -> A, reverse -> B
+	in.inbound = proxy.NewAdminServiceProxyServer("inboundAdminService", toA, toB, proxy.AdminServiceOverrides{},
+		[]string{"inbound"}, in.observerB.ReportStreamValue, scc, proxy.LCMParameters{},
+		proxy.RoutingParameters{OverrideShardCount: scc.RemoteShardCount, RoutingLocalShardCount: scc.LocalShardCount, DirectionLabel: "inbound"},
+		loggers, smForServers, w.lifetime)
+	if prof.Multi {
+		in := in
+		s.Spawn(in.startTask, func() {
+			if err := in.sm.Start(in.lifetime); err != nil {
+				// the real process exits when its shard manager cannot start (memberlist.Create is
+				// given 10 s; a goroutine stalled for longer is a legal if extreme schedule): for
+				// the deployment that is one more instance crash; when it happens in the tail the
+				// fault-free period starts from there
+				s.Log("instance %s: shard manager start: %v - the process exits", in.name, err)
+				if !prof.Crash {
+					in.startOK = true // profiles without instance loss keep the instance (it never saw a peer)
+					return
+				}
+				if !in.dead {
+					w.crash(in)
+					if w.phase == 1 {
+						w.tailStart = s.Now()
+						s.ExtendBudget(400000, 120*time.Second)
+					}
+				}
+				return
+			}
+			in.startOK = true
+		})
+	} else {
+		_ = in.sm.Start(w.lifetime)
+		in.startOK = true
+	}
+	return in
 }
 
 func (w *RouteWorld) violate(prop, clause, format string, args ...any) {
@@ -1114,7 +1171,7 @@ func (w *RouteWorld) Actions() []simrt.Action {
 	up := true
 	nAlive := 0
 	for _, in := range w.insts {
-		if !in.startOK {
+		if !in.startOK && !in.dead {
 			up = false
 		}
 		if !in.dead {
@@ -1143,6 +1200,27 @@ func (w *RouteWorld) Actions() []simrt.Action {
 				add("FAULT intra-break:"+st.Name, fw, true, func() {
 					w.fault("intra-break")
 					st.Break(status.Error(codes.Unavailable, "connection reset by peer"))
+				})
+			}
+		}
+	}
+	// a crashed instance is started again (same name and addresses, a new process)
+	if w.prof.Restart && w.phase <= 1 {
+		for i, in := range w.insts {
+			i, in := i, in
+			if in.dead && in.gen == 0 {
+				add("instance-restart:"+in.name, 2, false, func() {
+					w.s.Log("instance %s is started again", in.name)
+					w.faults["instance-restart"]++
+					// verdicts about the old incarnation that were not delivered yet are void
+					kept := w.pendingDead[:0]
+					for _, d := range w.pendingDead {
+						if d[1] != in.name {
+							kept = append(kept, d)
+						}
+					}
+					w.pendingDead = kept
+					w.insts[i] = w.newInstance(i, in.gen+1)
 				})
 			}
 		}
@@ -1392,6 +1470,10 @@ func (w *RouteWorld) crash(in *rInst) {
 			st.Break(broken)
 		}
 	}
+	if w.deadStarts == nil {
+		w.deadStarts = map[string]bool{}
+	}
+	w.deadStarts[in.startTask] = true
 	w.mlnet.Crash(in.name)
 	for _, o := range w.insts {
 		if o != in && !o.dead {
@@ -1625,21 +1707,6 @@ func (w *RouteWorld) trafficSig() string {
 	for _, lt := range w.s.LiveTasks() {
 		if strings.Contains(lt, "@DeliverAckToShardOwner[blocked]") {
 			sig = "ack-hand-off-blocked-on-ended-receiver"
-		}
-	}
-	// a surviving instance merged the crashed instance's state after it had been told that the
-	// instance is gone (C09's recorded finding): it keeps naming the dead instance as an owner
-	// and routes acknowledgements and tasks for those shards into the void
-	if w.mlnet != nil {
-		for _, d := range w.insts {
-			if !d.dead {
-				continue
-			}
-			for _, a := range w.insts {
-				if !a.dead && w.mlnet.MergedAfterLeave(a.name, d.name) {
-					sig = "state-merged-after-leave-notification"
-				}
-			}
 		}
 	}
 	return sig
